@@ -12,6 +12,19 @@ previous checkout.
   iso    ``execution_options(isolation_level="SERIALIZABLE")``             ac    ``execution_options(isolation_level="AUTOCOMMIT")``
   inv    ``Connection.invalidate()``         close  ``Connection.close()``   gc    drop the last reference + ``gc.collect()``
 
+Scope (2), "option histories" (same runner, same clauses, the driver's dialect additionally has a dialect-specific connection
+characteristic ``fakeverif_readonly`` shaped like ``postgresql_readonly`` — rtc/fakedbapi.py::FakeDialectRO): the first holder
+connects through an ENGINE FACADE ``engine.execution_options(**E)`` with engine-level options E ∈ FACADES (none / logging_token
+/ isolation_level / fakeverif_readonly / AUTOCOMMIT + logging_token; the facade shares the pool), then every history over OPS2:
+
+  tok    ``execution_options(logging_token="job")``      ro   ``execution_options(fakeverif_readonly=True)``
+  ac+tok ``execution_options(isolation_level="AUTOCOMMIT", logging_token="job")``  (several characteristics in ONE call)
+  co / ex / rollback / iso / ac / inv / close / gc as above  (co: a second holder through the plain engine)
+
+i.e. every order and repetition of connection-level execution options — each connection characteristic of the dialect alone,
+several in one call, several calls in a row, on top of engine-level ones — x every way of giving the connection back.
+The re-checkouts after the history always go through the plain engine.
+
 Contract = ``ensures`` of ``Engine.connect()`` / ``Pool.connect()``, evaluated on the ghost ledger at EVERY checkout inside
 the history and, after the history released every holder (close), at as many simultaneous re-checkouts as the pool has slots:
 
@@ -19,7 +32,11 @@ the history and, after the history released every holder (close), at as many sim
   H2  it has no open transaction / uncommitted work                  — unless pool_reset_on_return=None
   H3  its isolation level is the default and autocommit is off       — whatever reset_on_return is: the isolation_level
       execution option is documented to be restored when the connection is returned to the pool
+      (a checkout through an engine facade has exactly the facade's characteristics instead of the defaults); in scope (2)
+      also: the driver-level read-only flag set by the ``fakeverif_readonly`` execution option is off
   H4  no DBAPI call reached a closed connection
+  H5  the Connection handed out carries no connection-level execution option of an earlier user: its ``logging_token``
+      is the engine's (none for the plain engine)
 
 It appends exactly one block to ``run.coverage["bounded"]`` and reports failures through ``run``.
 """
@@ -34,6 +51,10 @@ OPS = ["co", "ex", "raw", "begin", "commit", "rollback", "err", "iso", "ac", "in
 POOLS = ["queue", "null", "static", "singleton"]
 RESETS = ["rollback", "commit", None]
 CONFIGS = [dict(name=f"{p}/reset={r}", pool=p, reset=r) for p in POOLS for r in RESETS]
+OPS2 = ["co", "ex", "rollback", "iso", "ac", "tok", "ro", "ac+tok", "inv", "close", "gc"]
+OPTION_OPS = ("iso", "ac", "tok", "ro", "ac+tok")
+FACADES = {"plain": None, "tok": dict(logging_token="w"), "iso": dict(isolation_level="SERIALIZABLE"),
+           "ro": dict(fakeverif_readonly=True), "ac+tok": dict(isolation_level="AUTOCOMMIT", logging_token="w")}
 
 
 class Fail(Exception):
@@ -41,19 +62,23 @@ class Fail(Exception):
         self.clause, self.detail = clause, detail
 
 
-def make_engine(cfg, L):
+def make_engine(cfg, L, ro=False):
     from sqlalchemy import pool as sapool
     kw = dict(pool_reset_on_return=cfg["reset"])
+    mk = F.make_engine_ro if ro else F.make_engine
     if cfg["pool"] == "queue":
-        return F.make_engine(L, poolclass=sapool.QueuePool, pool_size=2, max_overflow=1, pool_timeout=0, **kw)
+        return mk(L, poolclass=sapool.QueuePool, pool_size=2, max_overflow=1, pool_timeout=0, **kw)
     cls = dict(null=sapool.NullPool, static=sapool.StaticPool, singleton=sapool.SingletonThreadPool)[cfg["pool"]]
-    return F.make_engine(L, poolclass=cls, **kw)
+    return mk(L, poolclass=cls, **kw)
 
 
-def run_history(cfg, ops, trace=False):
+def run_history(cfg, ops, trace=False, facade=None):
+    """facade=None: scope (1) (FakeDialect, first holder through the plain engine); facade=<key of FACADES>: scope (2)"""
     L = F.Ledger(trace=trace)
     F.install_clock(L.clock)
-    e = make_engine(cfg, L)
+    e = make_engine(cfg, L, ro=facade is not None)
+    fopts = FACADES[facade] if facade is not None else None
+    e_first = e.execution_options(**fopts) if fopts else e
     shared = cfg["pool"] in ("static", "singleton")
     maxlive = 1 if shared else 2
     slots = dict(queue=3, null=2, static=1, singleton=1)[cfg["pool"]]
@@ -61,29 +86,43 @@ def run_history(cfg, ops, trace=False):
     steps = []
     failure = None
     na = False
-    stats = dict(checkouts=0, dirty_returns=0)
+    stats = dict(checkouts=0, dirty_returns=0, option_calls=0, max_option_calls_one_checkout=0)
     at = dict(op=None)
+    ocount = []          # option-setting calls made on each live Connection (parallel to conns)
 
-    def check(dc, where):
+    def check(conn, where, opts):
+        dc = conn.connection.dbapi_connection
+        opts = opts or {}
+        lvl = opts.get("isolation_level")
+        want_ac = lvl == "AUTOCOMMIT"
+        want_iso = F.DEFAULT_ISOLATION if lvl in (None, "AUTOCOMMIT") else lvl
+        want_ro = bool(opts.get("fakeverif_readonly"))
         stats["checkouts"] += 1
         if dc.closed:
             raise Fail("H1-handed-out-closed", f"{where}: {dc!r} is ledger-closed")
         if cfg["reset"] is not None and dc.txn_open:
             raise Fail("H2-handed-out-in-transaction", f"{where}: {dc!r} still has the previous holder's transaction open")
-        if dc.isolation != F.DEFAULT_ISOLATION or dc.autocommit:
-            raise Fail("H3-handed-out-with-isolation", f"{where}: {dc!r} isolation={dc.isolation} autocommit={dc.autocommit}")
+        if dc.isolation != want_iso or dc.autocommit != want_ac:
+            raise Fail("H3-handed-out-with-isolation", f"{where}: {dc!r} isolation={dc.isolation} autocommit={dc.autocommit}"
+                       + (f" (engine-level options {opts})" if opts else ""))
+        if dc.readonly != want_ro:
+            raise Fail("H3-handed-out-read-only", f"{where}: {dc!r} readonly={dc.readonly}" + (f" (engine-level options {opts})" if opts else ""))
         if L.use_after_close:
             raise Fail("H4-call-on-closed-connection", f"{where}: {L.use_after_close}")
+        tok = conn.get_execution_options().get("logging_token")
+        if tok != opts.get("logging_token"):
+            raise Fail("H5-handed-out-with-execution-option", f"{where}: logging_token={tok!r}, the engine's is {opts.get('logging_token')!r}")
 
-    def connect(where):
-        conns.append(e.connect())
-        check(conns[-1].connection.dbapi_connection, where)
+    def connect(where, first=False):
+        conns.append((e_first if first else e).connect())
+        ocount.append(0)
+        check(conns[-1], where, fopts if first else None)
 
     def dirty():
-        return any((c.txn_open or c.autocommit or c.isolation != F.DEFAULT_ISOLATION) for c in L.open)
+        return any((c.txn_open or c.autocommit or c.isolation != F.DEFAULT_ISOLATION or c.readonly) for c in L.open)
 
     try:
-        connect("initial connect")
+        connect("initial connect", first=True)
         for i, op in enumerate(ops):
             at["op"] = op
             err = None
@@ -98,6 +137,10 @@ def run_history(cfg, ops, trace=False):
                     break
                 if op in ("close", "gc") and dirty():
                     stats["dirty_returns"] += 1
+                if op in OPTION_OPS:
+                    stats["option_calls"] += 1
+                    ocount[-1] += 1
+                    stats["max_option_calls_one_checkout"] = max(stats["max_option_calls_one_checkout"], ocount[-1])
                 try:
                     c = conns[-1]
                     if op == "ex":
@@ -116,13 +159,21 @@ def run_history(cfg, ops, trace=False):
                         c.execution_options(isolation_level="SERIALIZABLE")
                     elif op == "ac":
                         c.execution_options(isolation_level="AUTOCOMMIT")
+                    elif op == "tok":
+                        c.execution_options(logging_token="job")
+                    elif op == "ro":
+                        c.execution_options(fakeverif_readonly=True)
+                    elif op == "ac+tok":
+                        c.execution_options(isolation_level="AUTOCOMMIT", logging_token="job")
                     elif op == "inv":
                         c.invalidate()
                     elif op == "close":
                         del c
+                        ocount.pop()
                         conns.pop().close()
                     elif op == "gc":
                         del c
+                        ocount.pop()
                         conns.pop()
                         gc.collect()
                     c = None
@@ -131,7 +182,7 @@ def run_history(cfg, ops, trace=False):
                     c = None
             if trace:
                 steps.append(dict(op=op, raised=err, ledger=[(repr(d), "closed" if d.closed else "open", dict(
-                    txn_open=d.txn_open, isolation=d.isolation, autocommit=d.autocommit)) for d in L.conns]))
+                    txn_open=d.txn_open, isolation=d.isolation, autocommit=d.autocommit, readonly=d.readonly)) for d in L.conns]))
         if not na:
             at["op"] = "release-all"
             while conns:
@@ -150,7 +201,7 @@ def run_history(cfg, ops, trace=False):
             if trace:
                 steps.append(dict(op="re-checkout", held=[repr(c.connection.dbapi_connection) for c in conns],
                                   ledger=[(repr(d), "closed" if d.closed else "open", dict(
-                                      txn_open=d.txn_open, isolation=d.isolation, autocommit=d.autocommit)) for d in L.conns]))
+                                      txn_open=d.txn_open, isolation=d.isolation, autocommit=d.autocommit, readonly=d.readonly)) for d in L.conns]))
     except Fail as fl:
         failure = dict(clause=fl.clause, detail=fl.detail, at_op=at["op"])
     finally:
@@ -161,10 +212,13 @@ def run_history(cfg, ops, trace=False):
                 pass
         e.dispose()
         F.install_clock(None)
-    return dict(failure=failure, na=na, steps=steps, checkouts=stats["checkouts"], dirty_returns=stats["dirty_returns"])
+    return dict(failure=failure, na=na, steps=steps, checkouts=stats["checkouts"], dirty_returns=stats["dirty_returns"],
+                option_calls=stats["option_calls"], max_option_calls_one_checkout=stats["max_option_calls_one_checkout"])
 
 
-def histories(maxlen):
+def histories(maxlen, alphabet=None):
+    alphabet = alphabet or OPS
+
     def ok(prefix, op):
         live = 1 + sum(1 for o in prefix if o == "co") - sum(1 for o in prefix if o in ("close", "gc"))
         if op == "co":
@@ -175,25 +229,35 @@ def histories(maxlen):
         yield prefix
         if len(prefix) == maxlen:
             return
-        for op in OPS:
+        for op in alphabet:
             if ok(prefix, op):
                 yield from rec(prefix + (op,))
     yield from rec(())
 
 
-def worker(shard, nshards, maxlen):
+def cases(maxlen, maxlen2):
+    """(facade | None, ops): scope (1) then scope (2)"""
+    for ops in histories(maxlen):
+        yield None, ops
+    for ops in histories(maxlen2, OPS2):
+        for fac in FACADES:
+            yield fac, ops
+
+
+def worker(shard, nshards, maxlen, maxlen2=0):
     F.quiet()
     gc.collect()
     gc.freeze()
-    out = dict(runs=0, evaluated=0, na=0, nontrivial=0, checkouts=0, failures=[], samples=[])
+    out = dict(runs=0, evaluated=0, na=0, nontrivial=0, checkouts=0, failures=[], samples=[],
+               option_histories=0, option_nontrivial=0, option_multi_call=0, option_engine_level=0)
     idx = 0
-    for ops in histories(maxlen):
+    for fac, ops in cases(maxlen, maxlen2):
         for cfg in CONFIGS:
             idx += 1
             if idx % nshards != shard:
                 continue
             out["runs"] += 1
-            r = run_history(cfg, ops)
+            r = run_history(cfg, ops, facade=fac)
             if r["na"]:
                 out["na"] += 1
                 continue
@@ -201,10 +265,22 @@ def worker(shard, nshards, maxlen):
             out["checkouts"] += r["checkouts"]
             if r["dirty_returns"]:
                 out["nontrivial"] += 1
+            if fac is not None:
+                out["option_histories"] += 1
+                if r["dirty_returns"]:
+                    out["option_nontrivial"] += 1
+                if r["max_option_calls_one_checkout"] >= 2:
+                    out["option_multi_call"] += 1
+                if fac != "plain":
+                    out["option_engine_level"] += 1
             if r["failure"]:
-                out["failures"].append(dict(config=cfg["name"], ops=list(ops), **r["failure"]))
-            elif r["dirty_returns"] and len(ops) == maxlen and len(out["samples"]) < 1:
-                out["samples"].append(dict(config=cfg["name"], ops=list(ops), dirty_returns=r["dirty_returns"], checkouts=r["checkouts"]))
+                d = dict(config=cfg["name"], ops=list(ops), **r["failure"])
+                if fac is not None:
+                    d["engine_options"] = fac
+                out["failures"].append(d)
+            elif r["dirty_returns"] and len(ops) == (maxlen2 if fac else maxlen) and len(out["samples"]) < 1:
+                out["samples"].append(dict(config=cfg["name"], ops=list(ops), dirty_returns=r["dirty_returns"], checkouts=r["checkouts"],
+                                           **({"engine_options": fac} if fac else {})))
     return out
 
 
@@ -215,9 +291,11 @@ def cfg_by_name(name):
 def bounded(run, tier, seed):
     F.quiet()
     maxlen = 4 if tier == "quick" else 5
+    maxlen2 = 3 if tier == "quick" else 4
     procs = default_procs(tier)
-    res = shard_map(worker, procs, procs, maxlen)
-    tot = dict(runs=0, evaluated=0, na=0, nontrivial=0, checkouts=0)
+    res = shard_map(worker, procs, procs, maxlen, maxlen2)
+    tot = dict(runs=0, evaluated=0, na=0, nontrivial=0, checkouts=0,
+               option_histories=0, option_nontrivial=0, option_multi_call=0, option_engine_level=0)
     failures, samples = [], []
     for r in res:
         if r is None or "crash" in r:
@@ -229,20 +307,30 @@ def bounded(run, tier, seed):
         samples += r["samples"]
     tr = run_history(cfg_by_name("queue/reset=rollback"), ("ac", "ex", "gc"), trace=True)
     samples = samples[:2] + [dict(config="queue/reset=rollback", ops=["ac", "ex", "gc"], trace=tr["steps"], failure=tr["failure"])]
+    tr = run_history(cfg_by_name("queue/reset=rollback"), ("ro", "ac+tok", "close"), trace=True, facade="tok")
+    samples.append(dict(config="queue/reset=rollback", engine_options="tok", ops=["ro", "ac+tok", "close"], trace=tr["steps"], failure=tr["failure"]))
     blk = dict(
         label="bounded (not proof)", property="C24",
         scope=f"every history of length <= {maxlen} over {OPS} applied to the most recent of <= 2 live Connections of a real "
               f"Engine on the fake DBAPI, x pools {POOLS} x pool_reset_on_return {RESETS} ({len(CONFIGS)} configurations; "
               f"one holder at a time for StaticPool / SingletonThreadPool); contract judged at every checkout and at "
-              f"slot-many simultaneous re-checkouts after every holder released; single thread",
+              f"slot-many simultaneous re-checkouts after every holder released; PLUS (2) option histories: every history of "
+              f"length <= {maxlen2} over {OPS2} (tok = logging_token, ro = the dialect-specific characteristic fakeverif_readonly, "
+              f"ac+tok = two characteristics in one execution_options() call) x first holder connecting through an engine facade "
+              f"engine.execution_options(E), E in {FACADES} x the same {len(CONFIGS)} configurations, re-checkouts through the plain "
+              f"engine; single thread",
         evaluations=tot["evaluated"], distinct_nontrivial=tot["nontrivial"],
         rule="histories are enumerated depth-first (operations without a live Connection and a third simultaneous holder are "
              "cut); every (configuration, history) pair is distinct; it is non-trivial (counted) when, according to the ledger, "
              "at least one connection went back to the pool DIRTY (open transaction, non-default isolation or autocommit at the "
-             "moment of close / gc)",
-        samples=samples, exhaustive=True, pruned=tot["na"], checkouts_judged=tot["checkouts"])
+             "moment of close / gc); for scope (2) the same rule gives option_histories_nontrivial, a read-only flag left on "
+             "counting as dirty; option_histories_multi_call counts those with >= 2 option-setting calls on one checkout, "
+             "option_histories_engine_level those whose first holder came through a facade with engine-level options",
+        samples=samples, exhaustive=True, pruned=tot["na"], checkouts_judged=tot["checkouts"],
+        option_histories=tot["option_histories"], option_histories_nontrivial=tot["option_nontrivial"],
+        option_histories_multi_call=tot["option_multi_call"], option_histories_engine_level=tot["option_engine_level"])
     run.coverage.setdefault("bounded", []).append(blk)
-    if tot["nontrivial"] < 2:
+    if tot["nontrivial"] < 2 or tot["option_nontrivial"] < 2 or tot["option_multi_call"] < 2:
         run.crashes.append("C24 bounded: vacuity guard: no connection was ever returned dirty")
     report(run, failures)
 
@@ -251,12 +339,14 @@ def report(run, failures):
     seen = {}
     for d in sorted(failures, key=lambda d: (len(d["ops"]), d["config"], d["ops"])):
         desc = dict(config=d["config"], ops=d["ops"], clause=d["clause"], at_op=d["at_op"])
+        if d.get("engine_options"):
+            desc["engine_options"] = d["engine_options"]
         dj = json.dumps(desc, sort_keys=True)
         k = run.match_known(function=FUNCTION, input=dj)
         if k is not None:
             run.known_finding(k, "bounded exploration on the real Engine/Pool over the fake DBAPI")
             continue
-        sig = (d["clause"], d["config"])
+        sig = (d["clause"], d["config"]) + (("option-history",) if d.get("engine_options") else ())
         seen[sig] = seen.get(sig, 0) + 1
         if seen[sig] > 1 or len(seen) > 12:
             continue
@@ -271,7 +361,7 @@ def report(run, failures):
 def replay(data):
     F.quiet()
     inp = data["input"]
-    r = run_history(cfg_by_name(inp["config"]), tuple(inp["ops"]), trace=True)
+    r = run_history(cfg_by_name(inp["config"]), tuple(inp["ops"]), trace=True, facade=inp.get("engine_options"))
     if r["failure"]:
         print(f"REPLAY-FAILS {FUNCTION} input={json.dumps(inp, sort_keys=True)} clause={r['failure']['clause']} {r['failure']['detail']}")
         for s in r["steps"]:
